@@ -165,7 +165,7 @@ pub fn run_c13(ctx: &Ctx) -> ! {
     let mut rep = Report::new(
         ctx,
         "exploration",
-        "the complete D-uri product scheme{http,https,ipp,ipps} x user-info(6) x host(8: names, IPv4, bracketed IPv6 incl. zone) x port(7) x path(7) x query(5) = 62 720 target URIs (thorough: + a second product of 107 520 further shapes: multiple '@' and ':' in user-info, IDN / IPv4-mapped / trailing-dot hosts, '@', ':', '+', ',' and a nested URI in the path, '@', '?', '/' in the query), each through util::canonicalize_uri (+ idempotence) and IppRequestResponse::new, and a 4x3x8x2x3x3 sub-product through all 9 operation builders; the printer-uri value (in memory and as decoded from the encoded bytes by R1) is split by the string-level RFC 3986 splitter R3 and compared component-wise. distinct = URI index; non-trivial = accepted by http::Uri",
+        "the complete D-uri product scheme{http,https,ipp,ipps} x user-info(6) x host(8: names, IPv4, bracketed IPv6 incl. zone) x port(7) x path(9, incl. paths beginning with an empty segment) x query(5) = 80 640 target URIs (thorough: + a second product of 107 520 further shapes: multiple '@' and ':' in user-info, IDN / IPv4-mapped / trailing-dot hosts, '@', ':', '+', ',' and a nested URI in the path, '@', '?', '/' in the query), each through util::canonicalize_uri (+ idempotence) and IppRequestResponse::new, and a 4x3x8x2x3x3 sub-product through all 9 operation builders; the printer-uri value (in memory and as decoded from the encoded bytes by R1) is split by the string-level RFC 3986 splitter R3 and compared component-wise. distinct = URI index; non-trivial = accepted by http::Uri",
     );
     rep.assume("a string http::Uri refuses to parse cannot be passed to the library and is outside the domain (counted in counters.rejected_by_http_uri)");
     if let Some(p) = &ctx.replay {
@@ -298,7 +298,7 @@ pub fn run_c14(ctx: &Ctx) -> ! {
     let mut rep = Report::new(
         ctx,
         "exploration",
-        "the complete D-uri product (62 720 target URIs, thorough + 107 520 further shapes, see C13) through the private URL mapper (cfg-guarded hook verif_transport_url); result split by the string-level splitter R3 and compared component-wise: ipp->http, ipps->https, http/https kept; port = given, else 631 for both ipp and ipps; host, user-info, path (\"\" = \"/\") and query unchanged; and what the two clients do with that mapping, observed by a loopback peer (child process of the network engine): request target, Host header and connection count for scheme {ipp, http} x host {127.0.0.1, localhost} x user-info(4) x path(7) x query(5) ('@', ':' and '/' inside path and query) x client configuration {plain, basic_auth, custom header, Authorization header} = 4 480 exchanges. distinct = URI index; non-trivial = accepted by http::Uri",
+        "the complete D-uri product (80 640 target URIs, thorough + 107 520 further shapes, see C13) through the private URL mapper (cfg-guarded hook verif_transport_url); result split by the string-level splitter R3 and compared component-wise: ipp->http, ipps->https, http/https kept; port = given, else 631 for both ipp and ipps; host, user-info, path (\"\" = \"/\") and query unchanged; and what the two clients do with that mapping, observed by a loopback peer (child process of the network engine): request target, Host header and connection count for scheme {ipp, http} x host {127.0.0.1, localhost} x user-info(4) x path(7) x query(5) ('@', ':' and '/' inside path and query) x client configuration {plain, basic_auth, custom header, Authorization header} = 4 480 exchanges. distinct = URI index; non-trivial = accepted by http::Uri",
     );
     rep.assume("hook verif_transport_url is a pure pass-through to ipp_uri_to_string (add-only, cfg(ipp_verif)); that the clients really contact the URL this function returns is observed on the wire (section transport-url-on-the-wire)");
     if let Some(p) = &ctx.replay {
